@@ -9,20 +9,21 @@
 (*    chunks, call until "more", grant on "nobuf", stop at the first       *)
 (*    error): the list of answers is judged frame by frame by the same     *)
 (*    Verdict operator (production block sizes 255/223).                   *)
+(* An event the specification cannot take is recorded in `bad` and the     *)
+(* rest of that execution (same "b") is skipped, so one TLC run judges all *)
+(* executions; the trace is accepted iff `bad` stays empty.                *)
 EXTENDS CobsDec, Json, IOUtils
-VARIABLE l
+VARIABLES l, bad, skipb
 TraceLog == ndJsonDeserialize(IOEnv.TRACE)
 
 KOf(arg) == KindOf(arg.kind, arg.m, IF arg.m = 3 THEN 3 ELSE 4)
-Tier2Idle == /\ reg' = <<>> /\ curr' = 0 /\ pos' = 0 /\ dlen' = 0 /\ dmsg' = -1 /\ code' = 0 /\ cpos' = 0
-Keep(a) == obs' = [a |-> a, arg |-> [x |-> 0], exp |-> [ret |-> "any"]]
 
 \* answers of a whole run, frame by frame from stream offset f
 RECURSIVE RunOK(_, _, _, _, _, _)
 RunOK(KK, data, res, i, f, fin) ==
   LET v == Verdict(KK, data, f, Len(data)) IN
   IF i > Len(res)
-  THEN \* no further answer: the decoder asked for more input (or the result budget was used up)
+  THEN \* no further answer: the decoder asked for more input (or the answer budget was used up)
        fin = "msg" \/ (fin = "more" /\ v.st = "open")
   ELSE LET r == res[i] IN
        IF r.r = "msg"
@@ -31,49 +32,50 @@ RunOK(KK, data, res, i, f, fin) ==
        ELSE /\ r.r = "err" /\ v.st \in {"bad", "amb"}
             /\ i = Len(res) /\ fin = "err"
 
-Step(ev) ==
-  CASE ev.a = "dinit" ->
-         /\ K' = KOf(ev.arg) /\ stream' = <<>> /\ fedn' = 0 /\ fs' = 0 /\ lost' = FALSE
-         /\ ev.obs.ret = "ok" /\ last' = "none" /\ Tier2Idle /\ Keep("dinit")
-    [] ev.a = "feed" ->
-         /\ stream' = stream \o ev.arg.data /\ fedn' = fedn + Len(ev.arg.data)
-         /\ last' = "feed" /\ Tier2Idle /\ Keep("feed") /\ UNCHANGED <<K, fs, lost>>
-    [] ev.a = "grant" ->
-         /\ last' = "grant" /\ Tier2Idle /\ Keep("grant") /\ UNCHANGED <<K, stream, fedn, fs, lost>>
-    [] ev.a = "call" ->
-         /\ ev.obs.guards = 1
-         /\ WriteOK(ev.obs.chg_hi, ev.obs.curr)
-         /\ CallOK(K, stream, fs, fedn, lost, ev.obs.ret, ev.obs.msg)
-         /\ fs' = NextFs(K, stream, fs, fedn, ev.obs.ret)
-         /\ lost' = NextLost(lost, ev.obs.ret)
-         /\ last' = ev.obs.ret /\ Tier2Idle /\ Keep("call") /\ UNCHANGED <<K, stream, fedn>>
-    [] ev.a = "peek" ->
-         /\ ev.obs.guards = 1
-         /\ WriteOK(ev.obs.chg_hi, ev.obs.curr)
-         /\ ev.obs.ret \in {"more", "nobuf", "err"}
-         /\ last' = "peek" /\ Tier2Idle /\ Keep("peek") /\ UNCHANGED <<K, stream, fedn, fs, lost>>
-    [] ev.a = "run" ->
-         /\ K' = KOf(ev.arg) /\ stream' = ev.arg.data /\ fedn' = Len(ev.arg.data) /\ fs' = 0 /\ lost' = FALSE
-         /\ ev.obs.guards = 1 /\ ev.obs.wr_outside = 0
-         /\ ev.obs.fed = Len(ev.arg.data)
-         /\ RunOK(K', ev.arg.data, ev.obs.res, 1, 0, ev.obs.last)
-         /\ last' = "run" /\ Tier2Idle /\ Keep("run")
+Judge(ev) ==
+  CASE ev.a = "dinit" -> ev.obs.ret = "ok"
+    [] ev.a = "feed"  -> TRUE
+    [] ev.a = "grant" -> TRUE
+    [] ev.a = "call"  -> /\ ev.obs.guards = 1
+                         /\ WriteOK(ev.obs.chg_hi, ev.obs.curr)
+                         /\ CallOK(K, stream, fs, fedn, lost, ev.obs.ret, ev.obs.msg)
+    [] ev.a = "peek"  -> /\ ev.obs.guards = 1
+                         /\ WriteOK(ev.obs.chg_hi, ev.obs.curr)
+                         /\ ev.obs.ret \in {"more", "nobuf", "err"}
+    [] ev.a = "run"   -> /\ ev.obs.guards = 1 /\ ev.obs.wr_outside = 0
+                         \* everything is fed unless an error or the answer budget ended the run
+                         /\ ev.obs.fed <= Len(ev.arg.data)
+                         /\ (ev.obs.last = "more" => ev.obs.fed = Len(ev.arg.data))
+                         /\ RunOK(KOf(ev.arg), SubSeq(ev.arg.data, 1, ev.obs.fed), ev.obs.res, 1, 0, ev.obs.last)
     [] OTHER -> FALSE
 
+Tier2Idle == UNCHANGED <<reg, curr, pos, dlen, dmsg, code, cpos, obs>>
+Update(ev) ==
+  CASE ev.a = "dinit" -> /\ K' = KOf(ev.arg) /\ stream' = <<>> /\ fedn' = 0 /\ fs' = 0 /\ lost' = FALSE
+                         /\ last' = "none" /\ Tier2Idle
+    [] ev.a = "feed"  -> /\ stream' = stream \o ev.arg.data /\ fedn' = fedn + Len(ev.arg.data)
+                         /\ last' = "feed" /\ Tier2Idle /\ UNCHANGED <<K, fs, lost>>
+    [] ev.a = "call"  -> /\ fs' = NextFs(K, stream, fs, fedn, ev.obs.ret)
+                         /\ lost' = NextLost(lost, ev.obs.ret)
+                         /\ last' = ev.obs.ret /\ Tier2Idle /\ UNCHANGED <<K, stream, fedn>>
+    [] OTHER -> UNCHANGED vars
+
 TraceInit ==
-  /\ l = 1 /\ K = KCobs /\ stream = <<>> /\ fedn = 0 /\ fs = 0 /\ lost = FALSE
+  /\ l = 1 /\ bad = <<>> /\ skipb = -1
+  /\ K = KCobs /\ stream = <<>> /\ fedn = 0 /\ fs = 0 /\ lost = FALSE
   /\ reg = <<>> /\ curr = 0 /\ pos = 0 /\ dlen = 0 /\ dmsg = -1 /\ code = 0 /\ cpos = 0 /\ last = "none"
   /\ obs = [a |-> "none", arg |-> [x |-> 0], exp |-> [ret |-> "any"]]
 
 TraceNext ==
   /\ l <= Len(TraceLog)
   /\ l' = l + 1
-  /\ Step(TraceLog[l])
+  /\ LET ev == TraceLog[l] IN
+     IF ev.b = skipb THEN UNCHANGED <<vars, bad, skipb>>
+     ELSE IF Judge(ev) THEN Update(ev) /\ UNCHANGED <<bad, skipb>>
+     ELSE PrintT(<<"REJECT", l>>) /\ bad' = Append(bad, l) /\ skipb' = ev.b /\ UNCHANGED vars
 
-TraceSpec == TraceInit /\ [][TraceNext]_<<vars, l>>
+TraceSpec == TraceInit /\ [][TraceNext]_<<vars, l, bad, skipb>>
 
-TraceAccepted ==
-  LET n == TLCGet("stats").diameter - 1 IN
-  /\ PrintT(<<"MATCHED", n>>)
-  /\ n = Len(TraceLog)
+AtEnd == l > Len(TraceLog) => PrintT(<<"MATCHED", l - 1, "REJECTED", Len(bad)>>)
+TraceAccepted == TLCGet("stats").diameter - 1 = Len(TraceLog)
 =============================================================================
